@@ -13,6 +13,7 @@ from bitcoin.bloom import CBloomFilter, MurmurHash3
 from bitcoin.core import COutPoint
 
 ID = 'C20'
+THREADSAFE = True      # cases touch no process-wide setting (no chain selection): the runner also runs them from several threads at once
 LEVEL = 'exploration'
 RULE = ('histories over one filter: Hypothesis RuleBasedStateMachine (rules: insert bytes / insert outpoint / contains of inserted and '
         'never-inserted elements / serialize->deserialize replacing the filter) for (elements 1..30,000, rate 1e-9..0.99) incl. both sides of '
@@ -41,6 +42,7 @@ class World:
         self.nhash = self.f.nHashFuncs
         self.bits = set()
         self.inserted = []
+        self.bufs = {}
         exp_bytes = int(min(-1 / LN2SQ * n_el * math.log(rate), 36000 * 8) / 8)
         if self.nbytes != exp_bytes:
             raise Violation('size/bytes', 'filter for (%d, %g) has %d bytes, BIP37 formula gives %d' % (n_el, rate, self.nbytes, exp_bytes))
@@ -78,7 +80,16 @@ class World:
             if k == 'insert':
                 e = bytes.fromhex(op[1])
                 # the element as the caller may hold it: bytes, bytearray, memoryview, or a CScript (a scriptPubKey to watch)
-                arg = libx.spellings(e, with_script=True)[(len(e) + len(self.inserted)) % 4][1]
+                knd, arg = libx.spellings(e, with_script=True)[(len(e) + len(self.inserted)) % 5]
+                if (len(self.inserted) // 3) % 2 == 0:
+                    # ONE buffer object refilled in place for every element of this length (a reader loop): what is inserted is
+                    # its content now, not what the object held last time
+                    buf = self.bufs.get(len(e))
+                    if buf is None:
+                        buf = self.bufs[len(e)] = bytearray(e)
+                    else:
+                        buf[:] = e
+                    arg = buf if len(self.inserted) % 2 else memoryview(buf)
             else:
                 e = bytes.fromhex(op[1]) + W.u32(op[2])
                 arg = COutPoint(bytes.fromhex(op[1]), op[2])
@@ -88,7 +99,7 @@ class World:
             self.inserted.append(e)
         elif k == 'contains':
             e = bytes.fromhex(op[1])
-            got = libx.call('contains', self.f.contains, libx.spellings(e, with_script=True)[(len(e) + len(self.inserted) + 1) % 4][1])[1]
+            got = libx.call('contains', self.f.contains, libx.spellings(e, with_script=True)[(len(e) + len(self.inserted) + 1) % 5][1])[1]
             exp = self.model_contains(e)
             if bool(got) != exp:
                 raise Violation('contains/%s' % ('false-negative' if (exp and e in self.inserted) else ('false-positive-set' if got else 'missed')),
@@ -182,8 +193,43 @@ def check_murmur(case):
     return {'nt': len(d) % 4 != 0, 'cls': ['murmur']}
 
 
+def check_threads(case):
+    """SEPARATE filters filled and queried from four threads at once (byte strings and outpoints): each ends with the BIP37 bits
+    of what went into it and contains all of it"""
+    jobs = []
+    for k in range(case['filters']):
+        tweak = (k * 2654435761) % 2 ** 32
+        elems = [bytes([k, i]) * (1 + i % 9) for i in range(12)]
+        pts = [(bytes([k + 1, i + 1]) * 16, i) for i in range(12)]
+
+        def fill(k=k, tweak=tweak, elems=elems, pts=pts):
+            f = CBloomFilter(50, 0.01, tweak, 1)
+            for e, (h, n_) in zip(elems, pts):
+                f.insert(e)
+                f.insert(COutPoint(h, n_))
+            ok = all(f.contains(e) for e in elems) and all(f.contains(COutPoint(h, n_)) for h, n_ in pts)
+            return bytes(f.vData), ok
+        f0 = CBloomFilter(50, 0.01, tweak, 1)
+        nbits, nh = len(f0.vData) * 8, f0.nHashFuncs
+        bits = set()
+        for e, (h, n_) in zip(elems, pts):
+            bits |= R.bip37_bits(nh, tweak, nbits, e) | R.bip37_bits(nh, tweak, nbits, h + W.u32(n_))
+        wb = bytearray(nbits // 8)
+        for b_ in bits:
+            wb[b_ >> 3] |= 1 << (b_ & 7)
+        want = bytes(wb)
+        jobs.append(('filter %d' % k, fill, (want, True)))
+    for label, fn, want in jobs:
+        if fn() != want:
+            raise Violation('threads/sequential-baseline', 'single-threaded fill of %s differs from the BIP37 bits' % label)
+    bad = libx.in_threads(jobs, seconds=case.get('seconds', 1.0))
+    if bad:
+        raise Violation('threads/separate-filters', 'separate filters used from four threads at once: %s ended with other bits / a missing member' % bad[0][0])
+    return {'nt': True, 'evals': len(jobs) * 10, 'cls': ['threads']}
+
+
 def check_case(case):
-    return {'hist': check_hist, 'wire': check_wire, 'murmur': check_murmur}[case['kind']](case)
+    return {'hist': check_hist, 'wire': check_wire, 'murmur': check_murmur, 'threads': check_threads}[case['kind']](case)
 
 
 # ------------------------------------------------------------------ generators
@@ -301,6 +347,8 @@ def t_murmur(ctx):
                 ctx.run({'kind': 'murmur', 'seed': seed, 'data': d.hex()})
     if ctx.shard == 0:
         ctx.exhaustive.append('MurmurHash3 on every length 0..67 x 6 seeds x 3 fill patterns')
+        ctx.run({'kind': 'threads', 'filters': 6, 'seconds': 1.5 if ctx.quick else 8})
+        ctx.exhaustive.append('6 separate filters filled with byte strings and outpoints from four threads at once')
         # cap boundaries and the size-0 corner, deterministic
         for n_el, rate in ((1, 0.99), (1, 0.9), (2, 0.5), (20000, 1e-4), (20001, 1e-4), (30000, 1e-9), (3, 1e-9), (1, 1e-9), (300, 1e-9),
                            (20769, 0.001), (20770, 0.001), (3, 1e-15), (3, 1e-16), (3, 1e-20), (1, 1e-300), (7, 1e-14)):
